@@ -124,6 +124,9 @@ type world struct {
 	// reopenIdx: index (oldest first) of the first record written after a
 	// persistent history was reopened; 0: never reopened
 	reopenIdx int
+	// firstIsFirst: the oldest record of the backend's list is the very first
+	// matching transition (nothing was rotated out before it)
+	firstIsFirst bool
 }
 
 func newWorld(r *rand.Rand, id string) *world {
@@ -507,6 +510,7 @@ func judgeX(res *core.CaseResult, w *world, backend string, mem amhist.MemoryApi
 	}
 	res.Key(backend, class, "list", len(recs) > 0, max > 0 && len(cands) > max)
 	// 4. queries
+	w.firstIsFirst = len(recs) > 0 && len(matched) > 0 && matched[0] == 0 && w.reopenIdx == 0
 	judgeQueries(res, w, backend, mem, recs, ctxs, r)
 }
 
@@ -566,6 +570,13 @@ func judgeQueries(res *core.CaseResult, w *world, backend string, mem amhist.Mem
 				byDiff := changedNow(i, s1)
 				byPrev := i == 0 || !active(i-1, s1)
 				if i == 0 {
+					// a record without any predecessor: all four backends count an
+					// active state as activated (so a backend that does not
+					// disagrees with the others); after a rotation the predecessor
+					// is only gone, not absent: either
+					if w.firstIsFirst {
+						return 1
+					}
 					return -1
 				}
 				if byDiff == byPrev {
@@ -580,6 +591,9 @@ func judgeQueries(res *core.CaseResult, w *world, backend string, mem amhist.Mem
 				byDiff := changedNow(i, s1)
 				byPrev := i == 0 || active(i-1, s1)
 				if i == 0 {
+					if w.firstIsFirst {
+						return 1
+					}
 					return -1
 				}
 				if byDiff == byPrev {
